@@ -2,7 +2,10 @@
 // engine intrinsic (inputs are symbolic); natively they replay a vector.
 package vrt
 
-import "fmt"
+import (
+	"fmt"
+	"unsafe"
+)
 
 // Vec is the native replay vector: one value per nondeterministic scalar, in call order.
 var Vec []uint64
@@ -105,6 +108,9 @@ func SameSpan(got, buf []byte, start, end int) bool {
 
 // InBuf: got lies inside buf's memory (or is empty).
 func InBuf(got, buf []byte) bool {
+	if len(got) < 0 || len(got) > cap(got) {
+		return false // corrupt slice header
+	}
 	if len(got) == 0 {
 		return true
 	}
@@ -132,3 +138,16 @@ func Register(name string, f func()) { registry[name] = f }
 
 // Lookup finds a registered harness.
 func Lookup(name string) func() { return registry[name] }
+
+// StrInBuf: the bytes of s lie inside buf's memory (or s is empty).
+func StrInBuf(s string, buf []byte) bool {
+	if len(s) == 0 {
+		return true
+	}
+	if len(buf) == 0 {
+		return false
+	}
+	sp := (*[2]uintptr)(unsafe.Pointer(&s))[0]
+	bp := uintptr(unsafe.Pointer(&buf[0]))
+	return sp >= bp && sp+uintptr(len(s)) <= bp+uintptr(len(buf))
+}
